@@ -166,7 +166,10 @@ def judge(case, ctx, ds, dataset=None):
             sub["previous_call_on"] = case["reordered_from"]
         if "after" in case:
             sub["after"], sub["original_ds"] = case["after"], case["original_ds"]
-        st, cons, _ = algos.run_config(cfg, dataset, scheme, False, case["libseed"])
+        # both values of return_at_most_one_ranking (the value BioConsert's callers ParCons / a nesting BioConsert pass is True)
+        one = (case["libseed"] // 7) % 2 == 1
+        ctx.count("runs_asking_for_one_ranking" if one else "runs_asking_for_all_rankings")
+        st, cons, _ = algos.run_config(cfg, dataset, scheme, one, case["libseed"])
         if st != "ok":
             if st == "exc" and algos.refusal_is_documented(cfg, cons, complete, False):
                 ctx.count("refused")
